@@ -341,7 +341,7 @@ func (s *ImmuServer) ChangePassword(ctx context.Context, r *schema.ChangePasswor
 	s.Logger.Infof("password for user %s was changed by user %s", targetUser.Username, user.Username)
 
 	// remove user from logged in users
-	s.removeUserFromLoginList(targetUser.Username)
+	s.dropUserFromLoginList(targetUser.Username)
 
 	// invalidate the token for this user
 	auth.DropTokenKeys(targetUser.Username)
@@ -440,7 +440,7 @@ func (s *ImmuServer) ChangePermission(ctx context.Context, r *schema.ChangePermi
 	s.Logger.Infof("permissions of user %s for database %s was changed by user %s", targetUser.Username, r.Database, user.Username)
 
 	// remove user from loggedin users
-	s.removeUserFromLoginList(targetUser.Username)
+	s.dropUserFromLoginList(targetUser.Username)
 
 	// terminate active sessions for this user
 	s.SessManager.CloseSessionsForUser(targetUser.Username)
@@ -503,7 +503,7 @@ func (s *ImmuServer) SetActiveUser(ctx context.Context, r *schema.SetActiveUserR
 	}[r.Active], user.Username)
 
 	//remove user from loggedin users
-	s.removeUserFromLoginList(targetUser.Username)
+	s.dropUserFromLoginList(targetUser.Username)
 
 	// terminate active sessions for this user
 	s.SessManager.CloseSessionsForUser(targetUser.Username)
@@ -613,6 +613,12 @@ func (s *ImmuServer) saveUser(ctx context.Context, user *auth.User) error {
 // entry when no sessions remain. Returns true when the last session was removed.
 func (s *ImmuServer) removeUserFromLoginList(username string) bool {
 	return s.userdata.RemoveSession(username)
+}
+
+// dropUserFromLoginList ends every login of username (deactivation, password,
+// permission or privilege change).
+func (s *ImmuServer) dropUserFromLoginList(username string) {
+	s.userdata.RemoveAllSessions(username)
 }
 
 func (s *ImmuServer) addUserToLoginList(u *auth.User) {
@@ -737,7 +743,7 @@ func (s *ImmuServer) ChangeSQLPrivileges(ctx context.Context, r *schema.ChangeSQ
 	s.Logger.Infof("permissions of user %s for database %s was changed by user %s", targetUser.Username, r.Database, user.Username)
 
 	// remove user from loggedin users
-	s.removeUserFromLoginList(targetUser.Username)
+	s.dropUserFromLoginList(targetUser.Username)
 
 	// terminate active sessions for this user
 	s.SessManager.CloseSessionsForUser(targetUser.Username)
